@@ -35,7 +35,7 @@ ROW_KIND = {
 def run(ctx):
     repo = ctx.repo
     res = Result(PROP)
-    res.rules = ["K1", "K2", "K5", "M-MAP", "M-EMPTY", "M-DTYPE", "M-ZERO", "M-ALIGN", "M-FLOW", "M-NORM"]
+    res.rules = ["K1", "K2", "K5", "M-MAP", "M-EMPTY", "M-DTYPE", "M-ZERO", "M-ALIGN", "M-FLOW", "M-NORM", "M-IDEM"]
     res.explanation = (
         "Narrow claim: kind inference over the matrix builders plus provenance of the returned index maps, definite "
         "assignment in the degenerate-shape branches and a dependency check on the multi-order normaliser. The numerical "
@@ -61,6 +61,14 @@ def run(ctx):
                      "def _w(H, e):\n    return H.edges[e].get('weight') or 1\n",
                      lambda n: f"`{unparse(n, 60)}` replaces a stored value by a default whenever it is falsy; an edge weight of 0 (an admissible non-negative weight) is silently counted as the default, so the weighted matrices no longer equal their definitions",
                      "`<lookup> or <default>` on stored weights/attributes")
+        # M-IDEM: the adjacency tensor is an indicator (1 where the nodes form a hyperedge): repeated edges must not add up
+        at = [f for f in fns if f.name == "adjacency_tensor"]
+        if not at:
+            raise AnalysisError("adjacency_tensor not found (anchor vanished)")
+        pattern_lint(res, PROP, "M-IDEM", at, accumulating_population,
+                     "def adjacency_tensor(H, order):\n    B = np.zeros((3,) * (order + 1))\n    for idx in H:\n        B[idx] += 1\n    return B\n",
+                     lambda n: f"`{unparse(n, 60)}` populates the tensor by accumulation; a hyperedge that occurs k times (multi-edges are admissible) contributes k instead of 1, so the entries are no longer the indicator of 'these nodes form a hyperedge' (nor 1/d! of it when normalised)",
+                     "accumulating population of the indicator tensor")
         from .common import check_dead_params, misaligned_zips
 
         nd = check_dead_params(res, PROP, "M-FLOW", fns, "the matrix or the index maps returned")
@@ -79,6 +87,42 @@ def run(ctx):
                     res.add(mk_finding(PROP, "M-ALIGN", fn, z, f"{fn.qualname}: `{unparse(z, 50)}` pairs sequences that were filtered or reordered differently ({detail}); element i of one meets element j of another - a weight is applied to the wrong order", role="zip"))
         res.floor("pairwise-consumed sequences in linalg", nz, 1)
     return res
+
+
+def accumulating_population(fn_node):
+    """Ways of filling an array that add up repeated indices: `A[i] += v`, np.add.at, np.bincount, histograms, Counter,
+    and sparse constructors from (data, (row, col)) triplets (which sum duplicates)."""
+    par = {}
+    for p in ast.walk(fn_node):
+        for ch in ast.iter_child_nodes(p):
+            par[ch] = p
+
+    def flattened(n):
+        """counts turned back into an indicator right away: `(counts > 0)`, `np.minimum(counts, 1)`, `.astype(bool)`, np.sign"""
+        p = par.get(n)
+        for _ in range(3):
+            if p is None:
+                return False
+            if isinstance(p, ast.Compare) and len(p.ops) == 1 and isinstance(p.ops[0], (ast.Gt, ast.NotEq, ast.GtE)):
+                return True
+            if isinstance(p, ast.Call):
+                pn = getattr(p.func, "attr", getattr(p.func, "id", None))
+                if pn in ("minimum", "clip", "sign") or (pn == "astype" and p.args and unparse(p.args[0]) == "bool"):
+                    return True
+            if isinstance(p, ast.stmt):
+                return False
+            p = par.get(p)
+        return False
+
+    for n in ast.walk(fn_node):
+        if isinstance(n, ast.AugAssign) and isinstance(n.op, ast.Add) and isinstance(n.target, ast.Subscript):
+            yield n
+        if isinstance(n, ast.Call) and not flattened(n):
+            name = getattr(n.func, "attr", getattr(n.func, "id", None))
+            if name in ("bincount", "histogramdd", "histogram", "histogram2d", "Counter", "coo_array", "coo_matrix"):
+                yield n
+            if name == "at" and isinstance(n.func, ast.Attribute) and getattr(n.func.value, "attr", None) == "add":
+                yield n
 
 
 def falsy_default_sites(fn_node):
